@@ -11,6 +11,25 @@ RELP = 'tapescript/parsing.py'
 BLOCK_BODY_OPS = ('OP_DEF', 'OP_IF', 'OP_IF_ELSE', 'OP_TRY_EXCEPT', 'OP_LOOP')
 
 
+def nop_test_parts(test: ast.AST):
+    """(atom text, polarity) of a NOP-prefix test: `x[:3] == 'NOP'`, `x.startswith('NOP')`, possibly under
+    `not` or spelled `!=`.  polarity True = the *body* of the if is the NOP branch."""
+    pol = True
+    while isinstance(test, ast.UnaryOp) and isinstance(test.op, ast.Not):
+        test = test.operand
+        pol = not pol
+    if isinstance(test, ast.Compare) and len(test.ops) == 1 and isinstance(test.ops[0], ast.NotEq):
+        test = ast.Compare(left=test.left, ops=[ast.Eq()], comparators=test.comparators)
+        pol = not pol
+    return ast.unparse(test).replace(' ', ''), pol
+
+
+def nop_branch(if_node: ast.If):
+    """The statements executed when the NOP-prefix test of `if_node` holds."""
+    _, pol = nop_test_parts(if_node.test)
+    return if_node.body if pol else if_node.orelse
+
+
 def norm_token(r: Read) -> str:
     """Shape token comparable between VM and decompiler: const size, or unsigned/signed
     length-prefixed read."""
@@ -166,7 +185,7 @@ def run(w: World, rep: Report):
             ifs = [s for s in body if isinstance(s, ast.If)]
             if len(ifs) != 1 or 'NOP' not in ast.unparse(ifs[0].test):
                 raise AnalysisError('decompile_script: wildcard arm not recognised')
-            arm_body = ifs[0].body
+            arm_body = nop_branch(ifs[0])
             nop_arm = True
             names = ['NOP']
         reads = arm_reads(cfg, kinds, arm_body, tape_var)
@@ -309,7 +328,7 @@ def compiler_domains(w: World) -> dict[str, dict]:
                 # NOP branch
                 for n in ast.walk(c):
                     if isinstance(n, ast.If) and 'NOP' in ast.unparse(n.test):
-                        for r in ast.walk(n):
+                        for r in ast.walk(ast.Module(body=nop_branch(n), type_ignores=[])):
                             if isinstance(r, ast.Return) and isinstance(r.value, ast.Call):
                                 out['NOP'] = {'helper': r.value.func.id, 'd': dom_of(r.value.func.id)}
                 continue
@@ -324,16 +343,48 @@ def _formatters(w, rep, cfg, kinds, armtag, names, body, reads, tape_var, comp_d
     injective formatter.  R6: printed decimal domain is accepted by the compiler helper."""
     # map: variable name -> read (single assignment in the arm)
     var_of = {}
+    temps = {}          # plain local holding exactly the bytes of one read: `t = tape.read(2)`
+    read_calls = [c for _, c in reads]
+
+    def _subst(value):
+        """`int.from_bytes(t, 'big')` with t a pure temporary of a read -> the same expression over the read call
+        itself (the very node, so identity tests keep working)."""
+        if not any(isinstance(x, ast.Name) and x.id in temps for x in ast.walk(value)):
+            return value
+        import copy as _copy
+
+        class S(ast.NodeTransformer):
+            def visit_Name(self, n):
+                if isinstance(n.ctx, ast.Load) and n.id in temps:
+                    return temps[n.id]
+                return n
+
+            def visit_Call(self, n):
+                if any(n is c for c in read_calls):
+                    return n            # never copy into a read call
+                self.generic_visit(n)
+                return n
+        keep = {id(c): c for c in read_calls}
+        memo = {id(c): c for c in read_calls}
+        v2 = _copy.deepcopy(value, memo)
+        return S().visit(v2)
     for st in body:
         if isinstance(st, ast.Assign) and len(st.targets) == 1 and isinstance(st.targets[0], ast.Name):
+            value = _subst(st.value)
+            nm = st.targets[0].id
+            temps.pop(nm, None)
             for r, call in reads:
-                if any(x is call for x in ast.walk(st.value)):
-                    var_of[st.targets[0].id] = (r, call, st.value)
+                if any(x is call for x in ast.walk(value)):
+                    var_of[nm] = (r, call, value)
+            if any(value is c for c in read_calls):
+                temps[nm] = value
     used_as_size = set()
     for r, call in reads:
         for x in ast.walk(call.args[0]):
             if isinstance(x, ast.Name) and x.id in var_of:
                 used_as_size.add(id(var_of[x.id][1]))
+            if isinstance(x, ast.Name) and x.id in temps:
+                used_as_size.add(id(temps[x.id]))
     # formatted values in add_line(f'...') and recursive decompile calls
     fvals = []
     for st in body:
